@@ -10,7 +10,8 @@ SPEC = dict(
          "particle; gravity, two-point and mobility springs, elastic joint stops, one Rod/PointInPlane/Ball constraint, dampers, damped "
          "LinearBushing, Hunt-Crossley sphere/half-space contact), each simulated with one of the 8 integrators at accuracy 1e-3..1e-8 "
          "(first-order methods 1e-4..1e-6) over T in [1,2.5]; conservative cases are simulated a second time at accuracy/100; one "
-         "record per trajectory (final state) + trajectory predicates; distinct = distinct trajectories",
+         "record per trajectory (final state) + trajectory predicates; every 4th case is a dissipative-element zoo case (14 element x regime "
+         "classes in turn, regime visit verified from the trajectory); distinct = distinct trajectories",
     partial="EVERY clause of the property is decided by implementation-side predicates (ii): energy drift against per-(integrator, "
             "accuracy) constants measured on the clean tree (x10) AND the accuracy-convergence ratio drift(acc/100)/drift(acc); momentum "
             "likewise; energy non-increasing with dampers; E + reported dissipation constant (LinearBushing; Hunt-Crossley contact, low "
